@@ -381,3 +381,41 @@ def c11_nested_bracket_access():
         return False, f"-> {got!r}"
     except Exception as e:  # noqa: BLE001
         return True, f"v['arr'][1] raised {type(e).__name__}: {str(e)[:70]}"
+
+
+def c01_integer_family_is_64_bit():
+    from vf.real import real_cursor
+
+    fs, conn, cur = real_cursor(False)
+    cur.execute("create table t (i int)")
+    try:
+        cur.execute("insert into t values (9223372036854775808)")
+        got = cur.execute("select i from t").fetchall()
+        return got != [(9223372036854775808,)], f"-> {got!r}"
+    except Exception as e:  # noqa: BLE001
+        return True, f"INT column (Snowflake: NUMBER(38,0)) rejects 2^63: {type(e).__name__}: {str(e)[:70]}"
+
+
+def c01_scale_zero_numbers_come_back_as_decimal():
+    from vf.real import real_cursor
+
+    fs, conn, cur = real_cursor(False)
+    cur.execute("create table t (n number(10,0), m number)")
+    cur.execute("insert into t values (5, 6)")
+    row = cur.execute("select n, m from t").fetchall()[0]
+    return any(type(v).__name__ != "int" for v in row), f"NUMBER(10,0)/NUMBER values come back as {[type(v).__name__ for v in row]} {row!r}; the connector returns int for scale 0"
+
+
+def c01_write_pandas_double_quote_in_column_name():
+    import pandas as pd
+
+    import fakesnow.pandas_tools as pt
+    from vf.real import real_conn
+
+    fs, conn = real_conn()
+    conn.cursor().execute('create table t ("a""b" int)')
+    try:
+        pt.write_pandas(conn, pd.DataFrame({'a"b': [1]}), "T")
+        return False, "accepted"
+    except Exception as e:  # noqa: BLE001
+        return True, f"column named a\"b -> {type(e).__name__}: {str(e)[:70]} (the name is wrapped in quotes without doubling the quote)"
